@@ -248,7 +248,8 @@ func runC07(c *explore.Ctx) {
 	{
 		scope := "DV-INCONSISTENT"
 		var idx int64
-		for _, dv0 := range []bool{true, false} {
+		for _, v0 := range []int{0, 1, 2} { // first segment: doc values on b / b without doc values / no field b at all
+			dv0 := v0 == 0
 			for _, dv1 := range []bool{true, false} {
 				for _, drop := range []int{-1, 0, 1} {
 					my := idx
@@ -265,6 +266,9 @@ func runC07(c *explore.Ctx) {
 						}
 					}
 					b0, b1 := mk("p", dv0), mk("q", dv1)
+					if v0 == 2 {
+						b0 = []model.Doc{{{N: "a", Len: 1, Terms: []model.Term{{T: "x", Freq: 1}}}}, {{N: "a", Len: 1, Terms: []model.Term{{T: "y", Freq: 1}}}}, {}}
+					}
 					s0, err0 := build(b0, 1025)
 					s1, err1 := build(b1, 1025)
 					if err0 != nil || err1 != nil {
@@ -276,7 +280,7 @@ func runC07(c *explore.Ctx) {
 					if drop >= 0 {
 						dr, ds = bitmapOf(uint32(drop)), map[uint64]bool{uint64(drop): true}
 					}
-					cas := fmt.Sprintf("%s #%d dv0=%v dv1=%v drop0=%d", scope, my, dv0, dv1, drop)
+					cas := fmt.Sprintf("%s #%d first-segment-variant=%d (0 doc values, 1 no doc values, 2 no such field) dv1=%v drop0=%d", scope, my, v0, dv1, drop)
 					mb, _, _, err := merge([]segment.Segment{s0, s1}, []*roaring.Bitmap{dr, nil}, 1025)
 					if err != nil {
 						c.Violate(scope, my, sigOf("C07", "inconsistent-merge", "error: "+err.Error()), err.Error(), cas)
@@ -354,15 +358,16 @@ func runC07(c *explore.Ctx) {
 			} else {
 				c.Violate(scope, my, sigOf("C07", "merge", "error: "+err.Error()), err.Error(), cas)
 			}
-			pre := dvcBatch(5, 0)
-			if ps, err := build(pre, 1025); err == nil {
-				if mb, _, _, err := merge([]segment.Segment{ps, seg}, []*roaring.Bitmap{nil, nil}, 1025); err == nil {
-					if l, err := loadMem(mb); err == nil {
-						ml, _ := model.Merge([]*model.LSeg{model.Build(pre), ls}, []map[uint64]bool{nil, nil})
-						forms = append(forms, fs{"merged-shift+5", l, ml})
+			for _, pre := range [][]model.Doc{dvcBatch(5, 0), dvcBatch(5, 99)} { // the second has no doc-value field at all
+				if ps, err := build(pre, 1025); err == nil {
+					if mb, _, _, err := merge([]segment.Segment{ps, seg}, []*roaring.Bitmap{nil, nil}, 1025); err == nil {
+						if l, err := loadMem(mb); err == nil {
+							ml, _ := model.Merge([]*model.LSeg{model.Build(pre), ls}, []map[uint64]bool{nil, nil})
+							forms = append(forms, fs{"merged-shift+5", l, ml})
+						}
+					} else {
+						c.Violate(scope, my, sigOf("C07", "merge", "error: "+err.Error()), err.Error(), cas)
 					}
-				} else {
-					c.Violate(scope, my, sigOf("C07", "merge", "error: "+err.Error()), err.Error(), cas)
 				}
 			}
 			nt := false
